@@ -19,7 +19,7 @@ BitSets == {{}} \cup {{i} : i \in 0..31} \cup {{i, j} : i \in 0..7, j \in 24..31
 \* the layout), and BCD years around the pivots of two-digit-year conventions
 Magic == { <<255, 216, 255, 224>>, <<255, 216, 255, 219>>, <<137, 80, 78, 71>>, <<71, 73, 70, 56>>, <<0, 0, 0, 24>>, <<0, 0, 1, 179>>, <<66, 77, 54, 0>> }
 MagicBodies == {m \o Word({}) \o Fixed : m \in Magic} \cup {Word({}) \o m \o Fixed : m \in Magic}
-Times == { <<105, 18, 49, 35, 89, 89>>, <<112, 1, 1, 0, 0, 0>>, <<153, 18, 49, 35, 89, 89>>, <<0, 1, 1, 0, 0, 0>>, <<104, 18, 49, 0, 0, 0>>, <<80, 6, 21, 18, 48, 0>> }
+Times == { <<105, 18, 49, 35, 89, 89>>, <<112, 1, 1, 0, 0, 0>>, <<153, 18, 49, 35, 89, 89>>, <<0, 1, 1, 0, 0, 0>>, <<104, 18, 49, 0, 0, 0>>, <<80, 6, 21, 18, 48, 0>>, <<0, 0, 0, 0, 0, 0>> }
 TimeBodies == {Word({0}) \o Word({1}) \o Sub(Fixed, 1, 14) \o t : t \in Times}
 FlagBodies == {Word(a) \o Word({}) \o Fixed : a \in BitSets} \cup {Word({}) \o Word(s) \o Fixed : s \in BitSets}
               \cup MagicBodies \cup TimeBodies
@@ -33,7 +33,8 @@ Lens(id) == IF id \in DOMAIN Admissible
 Content(id, n, k) == [i \in 1..n |-> IF id \in {37, 42} THEN (IF i = n - (k % n) THEN 2 ^ (k % 8) ELSE 0)
                                      ELSE IF id = 17 /\ i = 1 THEN k % 2 ELSE (16 * id + i + k) % 256]
 ItemBytes(id, n, k) == <<id, n>> \o Content(id, n, k)
-AllItems == UNION {{ItemBytes(id, n, k) : n \in {m \in Lens(id) : m >= 0}, k \in {0, 1, 9}} : id \in Ids}
+\* (for the 32-bit status word 0x25 also values that differ in their upper half only)
+AllItems == UNION {{ItemBytes(id, n, k) : n \in {m \in Lens(id) : m >= 0}, k \in (IF id = 37 THEN {0, 1, 2, 3, 9, 11} ELSE {0, 1, 9})} : id \in Ids}
 
 VARIABLES fam, body, nitems
 Init == \/ fam = "flags" /\ body \in FlagBodies /\ nitems = 0
